@@ -225,7 +225,12 @@ struct Extractor {
     else if (T->isArrayType()) c = "a";
     else if (T->isRecordType()) c = "r";
     else if (T->isRealFloatingType()) c = "f";
-    return std::string("\"t\":\"") + c + "\"";
+    std::string o = std::string("\"t\":\"") + c + "\"";
+    if (T->isIntegralOrEnumerationType()) {
+      o += ",\"w\":" + std::to_string(Ctx.getTypeSize(T));
+      if (!T->isSignedIntegerOrEnumerationType()) o += ",\"u\":1";
+    }
+    return o;
   }
 
   std::string ser(const Expr *E) {
@@ -361,6 +366,8 @@ struct Extractor {
       std::string extra;
       if (BO->isAdditiveOp() && BO->getType()->isPointerType())
         extra = "\"ptr\":1";
+      else if (BO->getType()->isIntegralOrEnumerationType() && !BO->getType()->isSignedIntegerOrEnumerationType())
+        extra = "\"u\":1,\"w\":" + std::to_string(Ctx.getTypeSize(BO->getType()));
       return "[\"bin\"," + jstr(BO->getOpcodeStr()) + "," + ser(BO->getLHS()) + "," + ser(BO->getRHS()) + attrs(E, false, extra) + "]";
     }
     if (const auto *CO = dyn_cast<ConditionalOperator>(E))
@@ -809,6 +816,8 @@ struct Extractor {
       if (!T->isIncompleteType())
         o += ",\"size\":" + std::to_string(Ctx.getTypeSizeInChars(T).getQuantity());
       o += ",\"ptr\":" + std::string(BT->isPointerType() ? "true" : "false");
+      if (BT->isIntegralOrEnumerationType())
+        o += ",\"bits\":" + std::to_string(Ctx.getTypeSize(BT)) + ",\"signed\":" + (BT->isSignedIntegerOrEnumerationType() ? "true" : "false");
       if (BT->isPointerType()) {
         QualType PT = BT->getPointeeType();
         o += ",\"pointee_const\":" + std::string((PT.isConstQualified() || PT->isFunctionType()) ? "true" : "false");
@@ -851,6 +860,8 @@ struct Extractor {
       const ParmVarDecl *P = FD->getParamDecl(i);
       QualType T = P->getType();
       o += "{\"name\":" + jstr(P->getNameAsString()) + ",\"type\":" + jstr(typeStr(T));
+      if (T->isIntegralOrEnumerationType())
+        o += ",\"bits\":" + std::to_string(Ctx.getTypeSize(T)) + ",\"signed\":" + (T->isSignedIntegerOrEnumerationType() ? "true" : "false");
       if (T->isPointerType()) {
         QualType PT = T->getPointeeType();
         o += ",\"ptr\":true,\"pointee_const\":" + std::string(PT.isConstQualified() ? "true" : "false");
